@@ -114,8 +114,8 @@ def ob_e2e(ctx):
         ts.append(t)
     j = P["replace"]
     nd, nt = module_data("n", j, P["newlen"], 3)
-    if P.get("rho"):
-        nd = rot(nd, P["rho"])
+    # the replacement plasmid is presented at every rotation (its origin may fall inside the site, the overhangs or the target)
+    nd = rot(nd, mk.pick("rho", slen(nd)))
     vb = mk.seq("vb", 2, "ACGT")
     vd = cat(o[c], vb, o[0], mk.seq("vy", off, "ACGT"), g.rsite, mk.seq("vp", 2, "ACGT"), g.site, mk.seq("vx", off, "ACGT"))
     rpos = g.ovl + 2 + g.ovl + off
@@ -152,7 +152,7 @@ def obligations(tier, seed):
     names = ["BsaI", "BbsI", "SapI"] if tier == "quick" else [v[0] for k, v in sorted(geometries().items())]
     for e in names:
         for j in (0, 1):
-            for newlen, rho in ((5, 0), (2, 7)):
-                obs.append(Ob("end-to-end %s replace module %d (new target %d nt, rotated by %d)" % (e, j, newlen, rho),
-                              ob_e2e, dict(enzyme=e, replace=j, newlen=newlen, rho=rho), samples=3, cost=2000))
+            for newlen in (5, 2):
+                obs.append(Ob("end-to-end %s replace module %d (new target %d nt, every rotation of the replacement)" % (e, j, newlen),
+                              ob_e2e, dict(enzyme=e, replace=j, newlen=newlen), samples=3, cost=20000))
     return obs
